@@ -179,6 +179,7 @@ def run(ch: Choices, opts: Dict[str, Any]) -> Dict[str, Any]:
     sched = Sched(ch, trace, mode="mix" if not calm else "time", max_cost=0 if calm else 40)
     qm = TraceQMem(lambda q: ch.draw(2, "outcome"))
     link = FakeLink(ch, sched, trace, legacy=False, max_gen_delay=0 if calm else 200, max_deliver_delay=0 if calm else 200)
+    link.eager = (not calm) and ch.flag(1, 5, "eager-link")   # the first pair of a create may be answered from inside put()
     node = ControllerNode("n0", 0, qm, lambda: sched.now, flavour="nv" if transp else "vanilla", link=link)
     ops = gen_ops(ch, max(cap, 0), budget, avoid, calm, nv=(hw == "nv"))
     if hw == "nv" and ops and ops[0][0] == "keep_plain" and len(ops[0][2]) >= 2 and ch.flag(1, 2, "slowlink"):
